@@ -127,8 +127,13 @@ def run(ctx):
             if v == ("Some",):
                 if nd != 1:
                     bad.append(("removed an entry, KeysDeleted bumped %d times" % nd, p))
-            elif nd != 0:
-                bad.append(("KeysDeleted bumped although nothing was removed", p))
+            elif v == ("None",):
+                if nd != 0:
+                    bad.append(("KeysDeleted bumped although nothing was removed", p))
+            else:
+                # the outcome of the removal is not looked at on this path: whether an entry went away is then unknown to
+                # the code, and a fixed number of bumps (0 or 1) is wrong for one of the two outcomes
+                bad.append(("an entry may or may not have been removed (the result of the removal is not examined), KeysDeleted bumped %d times" % nd, p))
         ctx.check(not bad, "R16.2", "%s|keys-deleted-per-removal" % fname, "KeysDeleted is bumped exactly once per successful removal", f.where(), str([(w, q.show()) for w, q in bad[:2]]))
     # nobody else bumps them
     for variant, fns, homes in (("KeysAdded", addk, S.insert_fns), ("KeysDeleted", delk, S.remove_fns)):
